@@ -79,13 +79,74 @@ def judge(seq, cfg):
     return out, r, exp
 
 
+import socket  # noqa: E402
+
+
+class ChunkSocket(socket.socket):
+    """A socket that delivers the data in chunks of a fixed size, then closes."""
+
+    def __init__(self, data, chunk):  # pylint: disable=super-init-not-called
+        self.data, self.chunk, self.p, self.after = data, chunk, 0, 0
+
+    def recv(self, n, *a):
+        if self.p >= len(self.data):
+            self.after += 1
+            if self.after > 64:
+                raise streams.Horizon()
+            return b""
+        out = self.data[self.p : self.p + min(n, self.chunk)]
+        self.p += len(out)
+        return out
+
+    def close(self):
+        pass
+
+    def __del__(self):
+        pass
+
+
+def judge_socket(seq, cfg, chunk, bufsize):
+    """The same by-construction expectation with the frames arriving through a socket."""
+    from pyubx2 import UBXReader
+    data = streams.seq_bytes(seq)
+    exp = expected_items(seq, cfg)
+    got, out = [], []
+    try:
+        rd = UBXReader(ChunkSocket(data, chunk), bufsize=bufsize, **streams.cfg_kwargs(cfg, (lambda e: None) if cfg.get("handler") else None))
+        for raw, parsed in rd:
+            got.append((raw, streams.sig(parsed)))
+            if len(got) > len(data) + 4:
+                break
+    except streams.Horizon:
+        out.append(("no_termination|socket", ""))
+    except Exception as e:  # noqa: BLE001
+        out.append((f"raised|{type(e).__name__}|socket", str(e)))
+    if not out and got != exp:
+        out.append((f"socket_items_differ|{'missing' if len(got) < len(exp) else 'other'}", f"chunk={chunk} bufsize={bufsize} got {len(got)} want {len(exp)}"))
+    return out
+
+
 def replay_case(case):
+    if case.get("socket"):
+        return judge_socket(tuple(case["tokens"]), case["cfg"], case["socket"][0], case["socket"][1])
     return judge(tuple(case["tokens"]), case["cfg"])[0]
 
 
 def eval_block(block, acc):
     ring, first, k = block
     cfgs = DEFAULTS if ring == "default" else product_configs()
+    if ring == "socket":
+        for seq in [(first,)] + [(first, t) for t in ALPHABET]:
+            for cfg in DEFAULTS[:1]:
+                for chunk in (1, 2, 3, 5, 8, 13, 64):
+                    for bufsize in (4, 16, 4096):
+                        out = judge_socket(seq, cfg, chunk, bufsize)
+                        acc.evaluations += 1
+                        acc.transitions += 1
+                        acc.outcomes[("socket", chunk, bufsize)] += 1
+                        for key, detail in out:
+                            acc.violation(key, {"tokens": list(seq), "cfg": cfg, "socket": [chunk, bufsize]}, detail)
+        return
     if ring == "long":
         cfgs = DEFAULTS + [dict(msgmode=1, validate=0, quitonerror=1, handler=True)]
         seqs = streams.long_seqs(streams.LONG_NEIGHBOURS)
@@ -114,6 +175,7 @@ def run_tier(tier, t0):
     blocks += [("default", f, k_def) for f in ALPHABET]
     blocks += [("product", f, k_prod) for f in ALPHABET]
     blocks.append(("long", None, 0))
+    blocks += [("socket", f, 2) for f in streams.FRAME_TOKENS]
     acc = engine.sweep(blocks, eval_block)
     # vacuity: per mode, at least one accepted and one rejected token per protocol that can be accepted
     vac = []
@@ -123,7 +185,7 @@ def run_tier(tier, t0):
             v = {table[t][0] for t in streams.FRAME_TOKENS if TOKENS[t][0] == proto}
             if "ok" in v:
                 vac.append((f"cfg {cfg}: protocol {proto} has a rejected token too", "rej" in v or cfg["validate"] == 0))
-    vac.append(("all three protocols delivered", {1, 2, 4} <= {p for (_, ps) in acc.outcomes for p in ps}))
+    vac.append(("all three protocols delivered", {1, 2, 4} <= {p for k in acc.outcomes if len(k) == 2 for p in k[1]}))
     engine.finish(
         PROP, tier, acc, t0, replay_case,
         rule=(
@@ -133,6 +195,7 @@ def run_tier(tier, t0):
             "from each token's standalone parser verdict. distinct_nontrivial = distinct (frames expected, protocols) classes"
         ),
         assumptions=[
+            "sequences of <= 2 tokens are also delivered through a socket in fixed chunks of 1,2,3,5,8,13,64 bytes x bufsize 4,16,4096 (every segmentation is C10's job)",
             "pynmeagps / pyrtcm parsers are the oracle for 'accepted by its protocol parser' (O4)",
             "noise tokens contain none of b5, 24, d3",
         ],
